@@ -71,11 +71,14 @@ establish the bound by themselves (declared type read off the source); every oth
 in Moyo/Model/C08Discharge.lean after reading the code.
 
 Output: Moyo/Generated/C08Sites.lean (written only when the content changed), sites grouped file → fn (kernel string
-equality is slow; grouping keeps the number of comparisons small); `--json <path>` the same data for checks/c08.py;
+equality is slow; grouping keeps the number of comparisons small); every fn group carries `body`, a 48-bit fingerprint
+(sha256) of the token text of the fn including its signature — insensitive to comments / blank lines / formatting —
+which the discharge table pins to say "this is the text the justifications were written against" (`--bodies` lists them); `--json <path>` the same data for checks/c08.py;
 `--out <path>` another Lean output path (experiments on modified trees).  No arguments: regenerate and print a
 one-line summary.  Exit 1 (naming file:line) when a file cannot be tokenised / structured.
 """
 import argparse
+import hashlib
 import json
 import os
 import re
@@ -1365,6 +1368,21 @@ def scan_file(rel, toks, fi, crate):
 # ------------------------------------------------------------------------------------------------
 # driver
 
+def fn_table(path):
+    """[(line, qualified fn name)] at every change of the enclosing fn along the file (for checks/c08.py: which fn
+    does a panic location `file:line` belong to).  Works on the unstripped token stream (test code included)."""
+    with open(path, encoding="utf-8") as f:
+        src = f.read()
+    toks = tokenize(src, path)
+    fi = analyse_structure(toks, path)
+    table, prev = [], None
+    for t, fn in zip(toks, fi.fn_of):
+        if fn != prev:
+            table.append((t.line, fn))
+            prev = fn
+    return table
+
+
 def lstr(s):
     return '"' + s.replace("\\", "\\\\").replace('"', '\\"').replace("\n", " ").replace("\r", " ").replace("\t", " ") + '"'
 
@@ -1401,6 +1419,27 @@ def build(src_root):
         ss = scan_file(rel, toks, fi, crate)
         ss.sort(key=lambda s: s["tok"])
         sites += ss
+    # fingerprint of the token text of every fn (static initialiser / module level) that contains a site:
+    # comments, blank lines and formatting do not change it, any change of a token does
+    bodies = {}
+    for rel in sorted(parsed):
+        toks, fi = parsed[rel]
+        wanted = {s["fn"] for s in sites if s["file"] == rel}
+        acc = {w: [] for w in wanted}
+        for i, t in enumerate(toks):
+            name = fi.fn_of[i]
+            if name in acc:
+                acc[name].append(t.t)
+            elif fi.sig_of[i] is not None:
+                f = fi.fns[fi.sig_of[i]]
+                q = (f"{f['impl']}::{f['name']}" if f["impl"] else f["name"])
+                if q in acc:
+                    acc[q].append(t.t)      # the signature belongs to the fingerprint as well
+        for w, ts in acc.items():
+            h = hashlib.sha256(" ".join(ts).encode("utf-8")).digest()
+            bodies[(rel, w)] = int.from_bytes(h[:6], "big")
+    for s in sites:
+        s["body"] = bodies[(s["file"], s["fn"])]
     # multiplicity of (kind, expr) within a fn
     cnt = {}
     for s in sites:
@@ -1437,7 +1476,7 @@ def emit_lean(inv, src_root):
         for fn, ss in fg:
             rows = ",\n".join(
                 f"      ⟨.{s['kind']}, {lstr(s['expr'])}, {lstr(s['cls'])}, {lstr(s['ev'])}, {s['line']}, {s['n']}⟩" for s in ss)
-            fn_terms.append(f"    ⟨{lstr(fn)}, [\n{rows}]⟩")
+            fn_terms.append(f"    ⟨{lstr(fn)}, {ss[0]['body']}, [\n{rows}]⟩")
         # chunk big files
         size = 12
         nch = (len(fn_terms) + size - 1) // size
@@ -1474,6 +1513,8 @@ def main():
     ap.add_argument("--out", default=OUT)
     ap.add_argument("--json", default=None)
     ap.add_argument("--print", action="store_true", help="print a readable inventory on stdout")
+    ap.add_argument("--bodies", action="store_true", help="print `file|fn|fingerprint` of every fn with sites (to refresh "
+                    "the reviewed fingerprints in Moyo/Model/C08Discharge.lean after re-reading a changed fn)")
     args = ap.parse_args()
     inv = build(args.src)
     text = emit_lean(inv, args.src)
@@ -1493,6 +1534,12 @@ def main():
     if args.print:
         for s in inv["sites"]:
             print(f"{s['file']}:{s['line']} fn {s['fn']} [{s['kind']}/{s['cls']}{' ' + s['ev'] if s['ev'] else ''}] {s['expr']}")
+    if args.bodies:
+        seen = set()
+        for x in inv["sites"]:
+            if (x["file"], x["fn"]) not in seen:
+                seen.add((x["file"], x["fn"]))
+                print(f"{x['file']}|{x['fn']}|{x['body']}")
     kinds = " ".join(f"{k}={v}" for k, v in sm["per_kind"].items())
     print(f"translate_c08.py: {sm['files']} files, {sm['cfg_items_removed']} cfg(test|verif) items removed, {sm['sites']} sites "
           f"({kinds}); {'wrote' if wrote else 'unchanged'} {args.out}")
